@@ -153,3 +153,33 @@ Proof.
   split; [eexists; vm_compute; reflexivity|]. split; [vm_compute; reflexivity|].
   eexists _, _. split; [vm_compute; reflexivity|]. vm_compute. reflexivity.
 Qed.
+
+(* ---- D32: the checker looked for the left neighbour of a range inside a preceding array ---- *)
+(* chk_l1 before the fix: the search for "..." ran over the text of an array as well *)
+Definition chk_l1_D32 (l0 ell : str) : option str :=
+  match find_ellipsis l0 0 with
+  | None => None
+  | Some ne => Some (if Nat.ltb (length ell) (length ne) then skip_ws (skipn 3 ne)
+                     else if is_range_multiplier l0 then after_x l0 else l0)
+  end.
+
+Definition arr_then_run : list av :=
+  VArr 105 7 :: map VI [1; 2; 3; 4; 5; 6; 9] ++ map VI [9; 10; 11; 12; 13].
+(* "[1 ... 6 9] 9 ... 13" and the position of its second ellipsis *)
+Definition arr_then_run_text : str :=
+  [91; 49; 32; 46; 46; 46; 32; 54; 32; 57; 93; 32; 57; 32; 46; 46; 46; 32; 49; 51].
+
+Lemma D32_witness :
+  (exists w, print_arg_vals opts_c arr_then_run 0 = Some (arr_then_run_text, w)) /\
+  (* the old search ends behind the ellipsis inside the array: neighbour 6 *)
+  chk_l1_D32 arr_then_run_text (skipn 14 arr_then_run_text) = Some (skipn 7 arr_then_run_text) /\
+  (* the new one takes the array as a whole *)
+  chk_l1 arr_then_run_text (skipn 14 arr_then_run_text) = Some arr_then_run_text /\
+  count_printed_arg_vals no_oracle no_oracle arr_then_run_text = Ok (true, 8) /\
+  (exists slots, scan_arg_vals no_oracle no_oracle arr_then_run_text 8 = Ok (slots, []) /\
+                 length slots = 8%nat).
+Proof.
+  split; [eexists; vm_compute; reflexivity|]. split; [vm_compute; reflexivity|].
+  split; [vm_compute; reflexivity|]. split; [vm_compute; reflexivity|].
+  eexists. split; [vm_compute; reflexivity|reflexivity].
+Qed.
